@@ -64,6 +64,7 @@ def run_traces(ctx: Ctx, specs: list[dict], prefixes: tuple[str, ...], *, label=
         for c in mine:
             ctx.violation(c, {"kind": "driver-trace", "spec": r["spec"], "clauses": mine,
                               "messages": r.get("msgs"), "err": r.get("err"),
+                              "unanchored_restart": any(e.get("unanchoredRestart") for e in r["trace"]),
                               "summary": f"family={r['spec']['family']} n={r['spec']['n']} "
                                          f"kwargs={r['spec'].get('kwargs')} msgs={r.get('msgs')}",
                               "events": [e for e in r["trace"]][-12:]})
